@@ -181,4 +181,140 @@ theorem hardLoopH_frame (grow : Nat → Nat → Nat) (cells : Slice) (n0 : Nat) 
       obtain ⟨f2, g2⟩ := ih (i + 1) _ _ (Nat.le_trans hn f1.1) g1
       exact ⟨f1.trans f2, g2⟩
 
+/-! ### the heap-level HardwrapScanner computes the value-level lines -/
+
+/-- The slice lies inside its array. -/
+def WFS (h : Heap) (s : Slice) : Prop := s.off + s.cap ≤ (arrOf h s.arr).length ∧ s.len ≤ s.cap
+
+theorem read_length {h : Heap} {s : Slice} (w : WFS h s) : (VaxisModel.Model.WrapHeap.read h s).length = s.len := by
+  unfold VaxisModel.Model.WrapHeap.read
+  have := w.1; have := w.2
+  simp only [List.length_take, List.length_drop]
+  omega
+
+theorem writeAt_read (l : List Cell) (off len : Nat) (xs : List Cell) (hl : off + len + xs.length ≤ l.length) :
+    ((writeAt l (off + len) xs).drop off).take (len + xs.length) = (l.drop off).take len ++ xs := by
+  unfold writeAt
+  have h1 : (l.take (off + len)).length = off + len := by rw [List.length_take]; omega
+  rw [List.append_assoc, List.drop_append_of_le_length (by omega)]
+  have hA : (l.take (off + len)).drop off = (l.drop off).take len := by
+    rw [List.drop_take]; congr 1; omega
+  rw [hA]
+  have h2 : ((l.drop off).take len).length = len := by rw [List.length_take, List.length_drop]; omega
+  rw [List.take_append, h2]
+  simp only [Nat.add_sub_cancel_left]
+  rw [List.take_append]
+  simp
+  exact List.take_of_length_le (by omega)
+
+theorem writeAt_length (l : List Cell) (pos : Nat) (xs : List Cell) (hl : pos + xs.length ≤ l.length) :
+    (writeAt l pos xs).length = l.length := by
+  unfold writeAt
+  simp only [List.length_append, List.length_take, List.length_drop]
+  omega
+
+theorem arrOf_set_self (h : Heap) (i : Nat) (v : List Cell) (hi : i < h.length) : arrOf (h.set i v) i = v := by
+  simp [arrOf, List.getD_eq_getElem?_getD, hi]
+
+theorem arrOf_append_new (h : Heap) (v : List Cell) : arrOf (h ++ [v]) h.length = v := by
+  simp [arrOf, List.getD_eq_getElem?_getD]
+
+/-- `append` on a well-formed slice living in the heap: the result denotes the old cells followed by the
+new ones, and is well-formed. -/
+theorem append_read (grow : Nat → Nat → Nat) (h : Heap) (s : Slice) (xs : List Cell)
+    (w : WFS h s) (hs : s.arr < h.length) :
+    VaxisModel.Model.WrapHeap.read (append grow h s xs).1 (append grow h s xs).2 = VaxisModel.Model.WrapHeap.read h s ++ xs ∧
+    WFS (append grow h s xs).1 (append grow h s xs).2 := by
+  unfold append
+  by_cases hx : xs.isEmpty = true
+  · have : xs = [] := List.isEmpty_iff.mp hx
+    subst this
+    simp [w]
+  · simp only [hx, Bool.false_eq_true, ↓reduceIte]
+    by_cases hc : s.len + xs.length ≤ s.cap
+    · simp only [hc, ↓reduceIte]
+      have hl : s.off + s.len + xs.length ≤ (arrOf h s.arr).length := by have := w.1; omega
+      constructor
+      · unfold VaxisModel.Model.WrapHeap.read
+        simp only [arrOf_set_self h s.arr _ hs]
+        exact writeAt_read _ _ _ _ hl
+      · refine ⟨?_, hc⟩
+        simp only [arrOf_set_self h s.arr _ hs]
+        rw [writeAt_length _ _ _ (by omega)]
+        exact w.1
+    · simp only [hc, ↓reduceIte]
+      have hrl := read_length w
+      constructor
+      · unfold VaxisModel.Model.WrapHeap.read
+        simp only [arrOf_append_new, List.drop_zero]
+        rw [List.take_append_of_le_length (by simp [VaxisModel.Model.WrapHeap.read] at hrl ⊢; omega)]
+        apply List.take_of_length_le
+        simp [VaxisModel.Model.WrapHeap.read] at hrl ⊢
+        omega
+      · refine ⟨?_, by simp only []; omega⟩
+        simp only [arrOf_append_new, List.length_append, List.length_replicate, hrl]
+        omega
+
+theorem read_empty (h : Heap) : VaxisModel.Model.WrapHeap.read h emptySlice = [] := by
+  simp [VaxisModel.Model.WrapHeap.read, emptySlice]
+
+/-- The loop of `HardwrapScanner.Scan` on the heap computes what the value-level loop computes. -/
+theorem hardLoopH_refines (grow : Nat → Nat → Nat) (cells : Slice) (h0 : Heap) (n0 : Nat)
+    (hc : cells.arr < n0) (wc : WFS h0 cells) :
+    ∀ (n i : Nat) (h : Heap) (line : Slice), i + n = cells.len → n0 ≤ h.length →
+      (∀ j, j < n0 → arrOf h j = arrOf h0 j) → Good n0 h line → WFS h line →
+      VaxisModel.Model.WrapHeap.read (hardLoopH grow cells i n h line).1 (hardLoopH grow cells i n h line).2.line =
+        (hardLoop (VaxisModel.Model.WrapHeap.read h line) ((VaxisModel.Model.WrapHeap.read h0 cells).drop i)).1 ∧
+      VaxisModel.Model.WrapHeap.read (hardLoopH grow cells i n h line).1 (hardLoopH grow cells i n h line).2.cells =
+        (hardLoop (VaxisModel.Model.WrapHeap.read h line) ((VaxisModel.Model.WrapHeap.read h0 cells).drop i)).2 := by
+  have hlen := read_length wc
+  intro n
+  induction n with
+  | zero =>
+    intro i h line hi _ _ _ _
+    have : (VaxisModel.Model.WrapHeap.read h0 cells).drop i = [] := List.drop_eq_nil_of_le (by omega)
+    simp only [hardLoopH, this, hardLoop, read_empty]
+    exact ⟨trivial, trivial⟩
+  | succ n ih =>
+    intro i h line hi hn hfr g wl
+    have hilt : i < (VaxisModel.Model.WrapHeap.read h0 cells).length := by omega
+    have hA : arrOf h cells.arr = arrOf h0 cells.arr := hfr _ hc
+    have hoff : cells.off + i < (arrOf h0 cells.arr).length := by have := wc.1; have := wc.2; omega
+    have helem : (arrOf h cells.arr).getD (cells.off + i) default = (VaxisModel.Model.WrapHeap.read h0 cells)[i] := by
+      rw [hA]
+      simp [List.getD_eq_getElem?_getD, List.getElem?_eq_getElem hoff, VaxisModel.Model.WrapHeap.read]
+    have hdrop : (VaxisModel.Model.WrapHeap.read h0 cells).drop i =
+        (VaxisModel.Model.WrapHeap.read h0 cells)[i] :: (VaxisModel.Model.WrapHeap.read h0 cells).drop (i + 1) :=
+      List.drop_eq_getElem_cons hilt
+    simp only [hardLoopH, helem]
+    rw [hdrop]
+    generalize (VaxisModel.Model.WrapHeap.read h0 cells)[i] = c
+    by_cases hnl : c.nl = true
+    · simp only [hnl, ↓reduceIte, hardLoop]
+      by_cases hlast : i + 1 = cells.len
+      · have : (VaxisModel.Model.WrapHeap.read h0 cells).drop (i + 1) = [] := List.drop_eq_nil_of_le (by omega)
+        rw [this]
+        simp [hlast, read_empty]
+      · have hne : (VaxisModel.Model.WrapHeap.read h0 cells).drop (i + 1) ≠ [] := by
+          intro he
+          have := congrArg List.length he
+          simp only [List.length_drop, List.length_nil] at this
+          omega
+        have hb : (i + 1 == cells.len) = false := by simpa using hlast
+        have he : ((VaxisModel.Model.WrapHeap.read h0 cells).drop (i + 1)).isEmpty = false := by
+          cases hd : (VaxisModel.Model.WrapHeap.read h0 cells).drop (i + 1) with
+          | nil => exact absurd hd hne
+          | cons _ _ => rfl
+        simp only [hb, Bool.false_eq_true, ↓reduceIte, he, true_and]
+        unfold VaxisModel.Model.WrapHeap.read sub
+        simp only [hA]
+        rw [List.drop_take, List.drop_drop]
+    · simp only [hnl, Bool.false_eq_true, ↓reduceIte, hardLoop]
+      obtain ⟨f1, g1⟩ := append_frame grow h line [c] n0 hn g
+      obtain ⟨r1, w1⟩ := append_read grow h line [c] wl g.2
+      have := ih (i + 1) _ _ (by omega) (Nat.le_trans hn f1.1)
+        (fun j hj => (f1.2 j hj).trans (hfr j hj)) g1 w1
+      rw [r1] at this
+      exact this
+
 end VaxisModel.Lemmas.WrapHeap
